@@ -200,6 +200,15 @@ def oracle_space(case, ctx):
         ex = reps.all_objects(space, kind)
         for name in reps.NAMES:
             rep = reps.make_rep(kind, name, shape, space)
+            # the same space declared with a type list that repeats entries and comes in another order (lists in configuration files are
+            # not sets): it has the same members, so every member has the same encoding
+            rep_dup = reps.make_rep(kind, name, shape, {'types': space['types'][::-1] + space['types'][::2], 'colors': space['colors'][:1] + space['colors'][1:][::-1]})
+            for o in ex:
+                dd = {'grid': [[ex[0]] * shape[1] for _ in range(shape[0])], 'agent': [0, 0, 'F', o if o != 'H' else '_']}
+                dd['grid'][shape[0] - 1][shape[1] - 1] = o
+                if not reps.arrays_equal(reps.convert(kind, rep, dd), reps.convert(kind, rep_dup, dd)):
+                    ctx.fail(f'{kind}/{name}: {o} is encoded differently when the space lists its types as {space["types"][::-1] + space["types"][::2]} (repeated entries, other order) '
+                             f'instead of {space["types"]}', {'kind': 'space_listing', 'rep': name})
             enc = {}
             for o in ex + ['_']:
                 d = {'grid': [[ex[0]] * shape[1] for _ in range(shape[0])], 'agent': [0, 0, 'F', o if o != 'H' else '_']}
